@@ -14,6 +14,7 @@ import vcommon as V
 sys.path.insert(0, os.path.dirname(os.path.abspath(__file__)))
 import c10lib as L
 import table as T
+import modstate as MS
 import guardscan as G
 
 PROP = "coq/C10/Properties_C10.v"
@@ -556,6 +557,82 @@ def check(run):
                                   "the rejected one: %s instead of %s" % (c["shape"], ts[kx] if kx < len(ts) else "<missing>", tf[kx] if kx < len(tf) else "<missing>"),
                                   {"kind": "scenario", "scenario": c["scenario"], "fresh_session": c["fresh"]})
     run.sample({"session_case": sess[0]["model"], "model": sout[0] if sout else None})
+
+    # ------------------------------------------------------------------ 3a-3. sessions over ALL module-level state
+    # (index-group registry, named atom groups, bias-type counters, module-level keywords, active variables):
+    # [base] -> [configurations touching that state, rejected or accepted] -> [configuration consuming it] -> steps
+    n6 = 28 if quick else 260
+    sess6 = MS.systematic_sessions(r) + [MS.gen_session(r, k) for k in range(n6)]
+    rc, m6, serr = V.run_lines(model, [MS.model_line(c) for c in sess6])
+    m6 = [MS.norm_model(l) for l in m6]
+    # the session without the configurations that the model says were rejected
+    kept6 = []
+    for k, c in enumerate(sess6):
+        st = m6[k] if k < len(m6) else []
+        kept = [x for i, x in enumerate(c) if not (i + 1 < len(st) and st[i + 1].startswith("reject "))]
+        kept6.append(kept if len(kept) != len(c) else None)
+    rc, m6k, serr = V.run_lines(model, [MS.model_line(c if c is not None else []) for c in kept6])
+    m6k = [MS.norm_model(l) for l in m6k]
+    j6 = []
+    for k, c in enumerate(sess6):
+        sc = MS.scenario(c)
+        j6.append(((k, "s"), plain, sc, os.path.join(W, "m6s", str(k)), "plain", 30))
+        if asan and (not quick or k % 4 == run.seed % 4):
+            j6.append(((k, "a"), asan, sc, os.path.join(W, "m6a", str(k)), "asan", 60))
+        same_model = kept6[k] is not None and k < len(m6) and k < len(m6k) and m6[k] and m6k[k] and \
+            m6[k][-1].split(" ", 1)[1] == m6k[k][-1].split(" ", 1)[1]
+        if same_model:
+            j6.append(((k, "f"), plain, MS.scenario(kept6[k]), os.path.join(W, "m6f", str(k)), "plain", 30))
+    r6 = L.run_many(j6)
+    for k, c in enumerate(sess6):
+        notes = [x if x == "RESET" else x.note.strip().replace(" ", "+") for x in c]
+        shape = ">".join(n for n in notes if n)
+        sc = MS.scenario(c)
+        for tag in ("s", "a"):
+            r2 = r6.get((k, tag))
+            if r2 is not None and r2["cls"] != "ok" and not r2.get("skipped"):
+                last_touch = [n for n in notes if n and not n.startswith("consume")]
+                report_death("session", "module-state", shape, "plain" if tag == "s" else "asan", r2, sc,
+                             vclass="%s>%s" % (last_touch[-1] if last_touch else "-", notes[-1]))
+        rr = r6[(k, "s")]
+        for n in notes:
+            for part in n.split("+"):
+                if part:
+                    run.count(("session6", part), True)
+        run.dist("session6:" + (notes[0].split(":")[0] if notes and notes[0] else "-"))
+        if rr["cls"] != "ok":
+            continue
+        im = MS.impl_states(rr["out"])
+        mo = m6[k] if k < len(m6) else []
+        if im != mo:
+            kx = next((i for i, (a_, b_) in enumerate(zip(im, mo)) if a_ != b_), min(len(im), len(mo)))
+            a_, b_ = (im[kx] if kx < len(im) else "<missing>"), (mo[kx] if kx < len(mo) else "<missing>")
+            fa, fb = dict(x.split("=", 1) for x in a_.split(" ")[1:] if "=" in x), dict(x.split("=", 1) for x in b_.split(" ")[1:] if "=" in x)
+            field = next((f for f in ("cv", "bias", "reg", "named", "act", "traj", "restart") if fa.get(f) != fb.get(f)), "verdict")
+            if a_.startswith("reject ") and b_.startswith("reject ") and field in ("reg", "named", "act", "cv", "bias"):
+                # a concrete rejected configuration after which the module state is not what "no residue" predicts
+                run.violation("rollback:residue:module-state:%s" % field, "after rejected configuration %d of the session (%s) the module-level state is [%s], "
+                              "expected [%s]" % (kx, shape, a_, b_), {"kind": "scenario", "scenario": sc, "model_case": MS.model_line(c)})
+            else:
+                run.mismatch("rollback:residue:module-state:%s" % field, "%s [configuration %d of %s]" % (MS.model_line(c), kx, shape), a_, b_)
+            continue
+        if (k, "f") in r6 and r6[(k, "f")]["cls"] == "ok":
+            ts, tf = MS.final_tail(rr["out"]), MS.final_tail(r6[(k, "f")]["out"])
+            def traj(d):
+                try:
+                    # the column labels (comment lines) are written again after any change of the object lists, also a rolled-back one
+                    return [l for l in open(os.path.join(W, d, str(k), "out.colvars.traj")).read().split("\n") if not l.startswith("#")]
+                except OSError:
+                    return ["<no trajectory file>"]
+            if ts == tf:
+                ts, tf = traj("m6s"), traj("m6f")
+            if ts != tf:
+                kx = next((i for i, (a_, b_) in enumerate(zip(ts, tf)) if a_ != b_), min(len(ts), len(tf)))
+                run.violation("rollback:residue:behaviour", "the model says that the rejected configurations of this session (%s) left nothing behind, but the session does not "
+                              "behave like the same session without them: %s instead of %s" % (shape, ts[kx] if kx < len(ts) else "<missing>", tf[kx] if kx < len(tf) else "<missing>"),
+                              {"kind": "scenario", "scenario": sc, "session_without_rejected": MS.scenario(kept6[k])})
+            run.count(("session6", "compared-with-session-without-rejected"), True)
+    run.sample({"session6_case": MS.model_line(sess6[0]), "model": m6[0] if m6 else None})
 
     # ------------------------------------------------------------------ 3b. structural cases of the property text
     jobs = []
